@@ -28,7 +28,13 @@ R2  spec->code: TLC enumerates function x length 0..70 x data variant (salted in
     that no exported function reaches.  CScalar.tla: cmplxs/cscalar (tolerance predicates on Gaussian
     quarter-integers, Round / RoundEven, Same, ParseWithNA on a token grid of the documented grammar) and the
     number grammar of floats/scalar.ParseWithNA; floats/scalar itself through X01's ScalarFloat.tla, reused
-    unchanged in all three builds.  A call that kills the process (memory fault inside an assembly kernel) is
+    unchanged in all three builds.
+    Extension (seed C08-6, W22): the complex element-wise families also run on elements whose real / imaginary
+    COMPONENTS are extended integers (SlicePrims.tla, ZCase; lemmas ZLaws in SliceAlias.tla): Add / Sub / AddConst /
+    CumSum / Sum / Real / Imag / Complex / ScaleReal / zdscal are component-wise by definition (an element such as
+    Inf+2i keeps its finite component), Scale / Mul / MulConj / AddScaled / zscal / zaxpy contain the product of the
+    Go language (ac - bd) + (ad + bc)i evaluated with the IEEE tables; where that formula gives NaN+NaNi although a
+    factor is infinite (C99 Annex G would return an infinity) the position is open.  A call that kills the process (memory fault inside an assembly kernel) is
     executed alone in a process of its own (isolated()).
 """
 import json
@@ -62,6 +68,13 @@ GROUPS = [
                 "MaxIdxP", "MinIdxP"), (40, 16), (70, 64), ""),
     ("pairs-strided", G("DotIncP", "AsumIncP", "Nrm2IncP", "CNorm2P", "CNrm2P", "CAsumP"), (40, 16), (70, 64), ""),
     ("complex-strided", G("CNorm2", "CAxpy", "CDotu", "CDotc", "CScal", "CDscal", "CAsum", "CNrm2"), (70, 5), (70, 20), ""),
+    # complex elements whose COMPONENTS are extended integers (one element of x, in half of the variants one of y,
+    # follows one of 18 component patterns such as Inf+2i, 3+NaNi, Inf-Infi, -0+1i; special scalars): the
+    # component-wise definitions, and the full complex products by the Go formula with "open" positions
+    ("complex-special-cw", G("ZCAdd", "ZCAddTo", "ZCSub", "ZCSubTo", "ZCAddConst", "ZCScaleReal", "ZCScaleRealTo", "ZCReal",
+                             "ZCImag", "ZCComplex", "ZCCumSum", "ZCSum", "ZCDscal"), (70, 9), (70, 36), ""),
+    ("complex-special-prod", G("ZCScale", "ZCScaleTo", "ZCMul", "ZCMulTo", "ZCMulConj", "ZCMulConjTo", "ZCAddScaled",
+                               "ZCAddScaledTo", "ZCScal", "ZCAxpy"), (70, 9), (70, 36), ""),
 ]
 PAIRS_ALL = G("SumP", "DotP", "Norm1P", "NormInfP", "Norm2P", "Dist1P", "DistInfP", "Dist2P", "CumSumP", "MaxIdxP", "MinIdxP")
 PAIRS_STRIDED_ALL = G("DotIncP", "AsumIncP", "Nrm2IncP", "CNorm2P", "CNrm2P", "CAsumP")
@@ -228,6 +241,10 @@ def run(ctx):
         "gonum.org/v1/gonum/); kernels are documented by the loop in their doc comment",
         "floats/scalar is judged by specs/misc/ScalarFloat.tla and its binding harness/internal/misc (extra check X01), unchanged",
         "an isolated call that dies with SIGSEGV twice, alone in a fresh process, is counted as a violation of that call",
+        "complex elements with special components: a complex product is the Go formula (ac - bd) + (ad + bc)i over the IEEE "
+        "tables of SlicePrims.tla; at the positions the specification lists as open (formula NaN+NaNi with an infinite factor) "
+        "every result that is not finite in both components is accepted; the sign of a zero component is compared only where a "
+        "component is copied or combined with a real scalar",
     ]
     return ctx.finish(
         rule="one case = one gonum call on operands printed by the specification (one function, length, data "
